@@ -683,68 +683,59 @@ theorem clipped_constraint_values_untruthful_counterexample :
       (assemble [mkIndivClipped (fun x : List ℤ => (([(x.sum : ℚ)], [(x.sum : ℚ) - 7], ([] : List ℚ)))) [1, 2]]) = false := by
   decide +kernel
 
-/-! ## 7. `Problem._evaluate`: the vectorised branch (finding D42) -/
+/-! ## 7. `Problem._evaluate`: both branches (D42 repaired) -/
 
-/-
-FULL STATEMENT (false of the as-is model, see counterexample):
-  for every configuration of the problem (elementwise or not) the batch evaluation handed to pymoo is
-  the row-wise `evalfn`:  ∀ elementwise ev X, evaluateBatch elementwise ev X = .ok (X.map ev).
--/
-theorem evaluate_batch_partial {ε ν : Type} (ev : List ε → ν) (X : List (List ε)) :
-    evaluateBatch true ev X = .ok (X.map ev) :=
-  evaluateBatch_elementwise ev X
+/-- **Full**: for every configuration of the problem (element-wise or vectorised) the batch
+    evaluation handed to pymoo is the row-wise `evalfn` -/
+theorem evaluate_batch {ε ν : Type} (elementwise : Bool) (ev : List ε → ν) (X : List (List ε)) :
+    evaluateBatch elementwise ev X = .ok (X.map ev) :=
+  evaluateBatch_eq elementwise ev X
 
-example : evaluateBatch true (fun x : List ℤ => x.sum) [[1, 2], [3, 4]] = .ok [3, 7] := by decide
+example : evaluateBatch false (fun x : List ℤ => x.sum) [[1, 2], [3, 4]] = .ok [3, 7] ∧
+    evaluateBatch true (fun x : List ℤ => x.sum) [[5], [7]] = .ok [5, 7] := by decide
 
-/-- `elementwise = False`: `self.evalfn(v *args, **kwargs)` is the product `v * ()` — a broadcast
-    error for `ndecn ≥ 2`, the evaluation of an EMPTY vector for `ndecn = 1` -/
-theorem evaluate_batch_vectorised_counterexample :
-    evaluateBatch false (fun x : List ℤ => x.sum) [[1, 2], [3, 4]] = .error "operands could not be broadcast together" ∧
-    evaluateBatch false (fun x : List ℤ => x.sum) [[5], [7]] = .ok [0, 0] ∧
-    evaluateBatch false (fun x : List ℤ => x.sum) [[5], [7]] ≠ .ok ([[5], [7]].map (fun x : List ℤ => x.sum)) := by
+/-- regression witness for D42 (before the repair): `elementwise = False` evaluated
+    `self.evalfn(v *args, **kwargs)`, the product `v * ()` — a broadcast error for `ndecn ≥ 2`, the
+    evaluation of an EMPTY vector for `ndecn = 1` -/
+theorem evaluate_batch_vectorised_prerepair_counterexample :
+    evaluateBatchPrerepair false (fun x : List ℤ => x.sum) [[1, 2], [3, 4]] = .error "operands could not be broadcast together" ∧
+    evaluateBatchPrerepair false (fun x : List ℤ => x.sum) [[5], [7]] = .ok [0, 0] ∧
+    evaluateBatchPrerepair false (fun x : List ℤ => x.sum) [[5], [7]] ≠ .ok ([[5], [7]].map (fun x : List ℤ => x.sum)) := by
   refine ⟨by decide, by decide, by decide⟩
 
-/-! ## 8. Signed constraint functions and the climbers' violation key (finding D41) -/
+/-! ## 8. Signed constraint functions and the climbers' violation key (D41 repaired) -/
 
-/-
-FULL STATEMENT (false of the as-is model, see counterexample):
-  for every table problem `p` (signed or penalty-style constraint functions), when the climb has
-  exited no single exchange has a lexicographically smaller (Σ max(0,g) + Σ |h|, Σ obj):
-    (hillclimb p.evalD TableProb.key p.space init fuel).2 = true →
-      localOptB p.evalD TableProb.vkey p.space (hillclimb p.evalD TableProb.key p.space init fuel).1.soln = true
-The climbers rank by `TableProb.key` = (Σ g + Σ h, Σ obj); the two keys coincide when the constraint
-functions are penalties (all values ≥ 0), which is the hypothesis of the partial theorem.
--/
-theorem hillclimb_local_opt_violation_key_partial (eval : List ℤ → List ℚ × List ℚ × List ℚ)
-    (hpen : ∀ x, (∀ a ∈ (eval x).2.1, 0 ≤ a) ∧ (∀ a ∈ (eval x).2.2, 0 ≤ a))
+/-- **Full**: for EVERY evaluation function — constraint functions signed (the documented
+    `G(x) ≤ 0` form, negative slack) or penalty-style — when the repaired climb has exited no single
+    exchange has a lexicographically smaller (Σ max(0,g) + Σ |h|, Σ obj) -/
+theorem hillclimb_local_opt_violation_key (eval : List ℤ → List ℚ × List ℚ × List ℚ)
     (space init : List ℤ) (fuel : ℕ)
     (hstop : (hillclimb eval TableProb.key space init fuel).2 = true) :
-    localOptB eval TableProb.vkey space (hillclimb eval TableProb.key space init fuel).1.soln = true := by
-  have hk : (fun v => TableProb.vkey (eval v)) = (fun v => TableProb.key (eval v)) := by
-    funext v
-    exact vkey_eq_key _ (hpen v).1 (hpen v).2
-  have h := hillclimb_spec_sound eval TableProb.key space init fuel hstop
-  rw [local_opt_spec_iff] at h ⊢
-  intro i hi e he hne
-  have e1 : TableProb.vkey (eval ((hillclimb eval TableProb.key space init fuel).1.soln.set i e)) =
-      TableProb.key (eval ((hillclimb eval TableProb.key space init fuel).1.soln.set i e)) := congrFun hk _
-  have e2 : TableProb.vkey (eval (hillclimb eval TableProb.key space init fuel).1.soln) =
-      TableProb.key (eval (hillclimb eval TableProb.key space init fuel).1.soln) := congrFun hk _
-  rw [e1, e2]
-  exact h i hi e he hne
+    localOptB eval TableProb.key space (hillclimb eval TableProb.key space init fuel).1.soln = true :=
+  hillclimb_spec_sound eval TableProb.key space init fuel hstop
 
--- a penalty-style evaluation meets the hypothesis of the partial theorem
+-- non-vacuity on the signed D41 table: the repaired climb from [12, 15] exits at [10, 15] (violation 0, score −7)
+example : (hillclimb d41.evalD TableProb.key d41.space [12, 15] 100).2 = true ∧
+    (hillclimb d41.evalD TableProb.key d41.space [12, 15] 100).1.soln = [10, 15] ∧
+    TableProb.key (d41.evalD [10, 15]) = (0, -7) := by
+  refine ⟨by decide +kernel, by decide +kernel, by decide +kernel⟩
+
+/-- before the repair the two keys agreed only for penalty-style (non-negative) constraint functions -/
+theorem key_prerepair_agrees_on_penalties (v : List ℚ × List ℚ × List ℚ)
+    (hg : ∀ a ∈ v.2.1, 0 ≤ a) (hh : ∀ a ∈ v.2.2, 0 ≤ a) : TableProb.key v = TableProb.keyPrerepair v :=
+  key_eq_keyPrerepair v hg hh
+
 example : ∀ x ∈ [[10, 11], [12, 15], [13, 14]],
-    (∀ a ∈ (d37pen.evalD x).2.1, (0 : ℚ) ≤ a) := by decide +kernel
+    (∀ a ∈ (d41pen.evalD x).2.1, (0 : ℚ) ≤ a) := by decide +kernel
 
-/-- with signed constraint functions the climb started at [12, 15] stops there at once (slack −4, 0:
-    raw key (−4, −5)), although exchanging 12 for 10 keeps both constraints satisfied (0, 0) and
-    improves the score from −5 to −7 -/
-theorem hillclimb_signed_constraints_counterexample :
-    (hillclimb d37.evalD TableProb.key d37.space [12, 15] 100).2 = true ∧
-    (hillclimb d37.evalD TableProb.key d37.space [12, 15] 100).1.soln = [12, 15] ∧
-    localOptB d37.evalD TableProb.key d37.space [12, 15] = true ∧
-    localOptB d37.evalD TableProb.vkey d37.space [12, 15] = false := by
+/-- regression witness for D41 (before the repair, key = raw sum Σ g + Σ h): with signed constraint
+    functions the climb started at [12, 15] stopped there at once (slack −4, 0: raw key (−4, −5)),
+    although exchanging 12 for 10 keeps both constraints satisfied and improves the score −5 → −7 -/
+theorem hillclimb_signed_constraints_prerepair_counterexample :
+    (hillclimb d41.evalD TableProb.keyPrerepair d41.space [12, 15] 100).2 = true ∧
+    (hillclimb d41.evalD TableProb.keyPrerepair d41.space [12, 15] 100).1.soln = [12, 15] ∧
+    localOptB d41.evalD TableProb.keyPrerepair d41.space [12, 15] = true ∧
+    localOptB d41.evalD TableProb.key d41.space [12, 15] = false := by
   refine ⟨by decide +kernel, by decide +kernel, by decide +kernel, by decide +kernel⟩
 
 end C06
